@@ -91,6 +91,10 @@ type c01Fail struct {
 
 func runC01(c *Ctx) {
 	c.Rep.Rule = "a case is (configuration, document); distinct by hash; non-trivial = the document has >= 2 Markdown-significant bytes or any malformed byte (NUL, invalid UTF-8, CR)"
+	// tie of the block-scanner models whose totality / range theorems this property states
+	listItemCases(c, 1000)
+	leafBlockCases(c, 0)
+	delimCases(c, 1000)
 	full := fullLattice()
 	small := smallLattice()
 	o := docOpts{exhaustiveLen: 2, corpus: true, random: 3000, mutants: 3000, blockLines: 3, randLines: 5000}
